@@ -41,7 +41,8 @@ CLASS_PARAMS = {"cls", "clazz", "klass", "structure", "struct_class", "the_class
 MUTATORS = {"append", "extend", "insert", "pop", "remove", "clear", "update", "add", "discard", "sort",
             "reverse", "setdefault", "popitem", "appendleft", "popleft", "extendleft", "__setitem__",
             "__delitem__"}
-MUTABLE_CALLS = {"dict", "list", "set", "defaultdict", "OrderedDict", "deque", "Counter"}
+MUTABLE_CALLS = {"dict", "list", "set", "defaultdict", "OrderedDict", "deque", "Counter", "WeakKeyDictionary",
+                 "WeakValueDictionary", "WeakSet", "ChainMap"}
 COPY_CALLS = {"list", "dict", "set", "tuple", "sorted", "copy", "deepcopy", "frozenset", "OrderedDict"}
 # what StructMeta.__new__ computes: rebinding one of these after definition rewrites the definition
 STRUCT_DEF_ATTRS = {"_required", "_optional", "_fields", "_field_by_name", "_constants", "__signature__",
@@ -75,7 +76,8 @@ def mutable_kind(v):
         n = f.id if isinstance(f, ast.Name) else f.attr if isinstance(f, ast.Attribute) else None
         if n in MUTABLE_CALLS:
             return {"dict": "dict", "defaultdict": "dict", "OrderedDict": "dict", "Counter": "dict",
-                    "list": "list", "deque": "list", "set": "set"}[n]
+                    "list": "list", "deque": "list", "set": "set", "WeakKeyDictionary": "dict",
+                    "WeakValueDictionary": "dict", "WeakSet": "set", "ChainMap": "dict"}[n]
     return None
 
 
@@ -158,7 +160,8 @@ class Scan:
     # ------------------------------------------------------------------ helpers
     def add(self, file, name, site, kind, key, after):
         k = (name, kind, site) if kind in ("inPlaceClassAttr", "inPlaceCacheEntry", "earlyBoundClassAttr",
-                                           "sharedReturnMutated", "configCapture", "defaultArg", "inheritedMemo") \
+                                           "sharedReturnMutated", "configCapture", "defaultArg", "inheritedMemo",
+                                           "mroRead") \
             else (name, kind)   # one row per in-place write SITE
         if k in self.rows:
             r = self.rows[k]
@@ -275,6 +278,8 @@ class Scan:
         self.pass_config_capture()
         self.pass_inherited_memo()
         self.pass_class_object_containers()
+        self.pass_mro_read()
+        self.pass_namespace_writes()
         return sorted(self.rows.values(), key=lambda r: (r["file"], r["name"], r["kind"], r["site"]))
 
     # ------------------------------------------------------------------ data/control dependencies
@@ -1007,6 +1012,91 @@ class Scan:
                 else:
                     # created per class somewhere else: still found through the MRO by subclasses
                     self.add(f.file, "cls." + attr, f.qual, "dict", key if key != "none" else "unknown", True)
+
+    def pass_mro_read(self):
+        """an attribute that operations install on classes after definition with a COMPUTED value (`serialize`) is read,
+        in a function's own body, from ANOTHER class than the function's subject with `getattr(X, attr)` / `X.attr`
+        and without consulting `X.__dict__`: the lookup goes through the MRO, so what was installed on a BASE class
+        of X answers for X — whether X "has" the attribute then depends on whether its base class was used"""
+        computed = set()
+        for g in self.funcs:
+            if self.is_definition_time(g):
+                continue
+            for n in g.body_nodes(strict=True):
+                if isinstance(n, ast.Assign):
+                    for t in n.targets:
+                        if isinstance(t, ast.Attribute) and self.is_class_expr(g, t.value) \
+                                and not isinstance(n.value, ast.Constant):
+                            computed.add(t.attr)
+                if isinstance(n, ast.Call) and isinstance(n.func, ast.Name) and n.func.id == "setattr" \
+                        and len(n.args) == 3 and self.is_class_expr(g, n.args[0]) \
+                        and not isinstance(n.args[2], ast.Constant):
+                    a = self.const_str(n.args[1])
+                    if a:
+                        computed.add(a)
+        computed -= self.definition_attrs()
+        if not computed:
+            return
+        for f in self.funcs:
+            if self.is_definition_time(f):
+                continue
+            def norm(e):
+                if isinstance(e, ast.Name):
+                    v = self.local_value(f, e.id)
+                    if v is not None:
+                        return ast.dump(v)
+                return ast.dump(e)
+            guarded = set()      # (expression, attr) pairs for which X.__dict__ is consulted
+            for n in f.body_nodes(strict=True):
+                if isinstance(n, ast.Compare) and len(n.comparators) == 1 and isinstance(n.ops[0], (ast.In, ast.NotIn)):
+                    c = n.comparators[0]
+                    if isinstance(c, ast.Attribute) and c.attr == "__dict__":
+                        guarded.add((norm(c.value), self.const_str(n.left)))
+            # only reads that DECIDE something (operands of a comparison, `hasattr`) count: dispatching a call through
+            # the attribute when an instance is in hand is late binding, not a generation-time decision
+            cands = []
+            for n in f.body_nodes(strict=True):
+                if isinstance(n, ast.Compare):
+                    cands.extend([n.left] + list(n.comparators))
+                if isinstance(n, ast.Call) and isinstance(n.func, ast.Name) and n.func.id == "hasattr":
+                    cands.append(n)
+            for n in cands:
+                attr, src = None, None
+                if isinstance(n, ast.Attribute) and isinstance(n.ctx, ast.Load) and n.attr in computed:
+                    attr, src = n.attr, n.value
+                elif isinstance(n, ast.Call) and isinstance(n.func, ast.Name) and n.func.id in ("getattr", "hasattr") \
+                        and len(n.args) >= 2 and self.const_str(n.args[1]) in computed:
+                    attr, src = self.const_str(n.args[1]), n.args[0]
+                if attr is None or isinstance(src, ast.Call):
+                    continue
+                own = self.is_class_expr(f, src) == "own"
+                if not own and not self.denotes_class(f, src):
+                    continue
+                if isinstance(src, ast.Name) and src.id in self.classes:
+                    continue          # a typedpy class named literally (`FastSerializable.serialize`)
+                if (norm(src), attr) in guarded:
+                    continue
+                self.add(f.file, "cls." + attr, f.qual, "mroRead", "otherClass", True)
+
+    def pass_namespace_writes(self):
+        """writes into a module namespace at run time: `globals()[k] = v`, `setattr(sys.modules[...], k, v)`,
+        `sys.modules[k] = v` — process-wide state keyed by a NAME"""
+        for f in self.funcs:
+            for n in f.body_nodes(strict=True):
+                if isinstance(n, (ast.Assign, ast.AugAssign)):
+                    for t in (n.targets if isinstance(n, ast.Assign) else [n.target]):
+                        if isinstance(t, ast.Subscript):
+                            v = t.value
+                            if isinstance(v, ast.Call) and isinstance(v.func, ast.Name) and v.func.id in ("globals", "vars"):
+                                self.add(f.file, v.func.id + "()", f.qual, "dict", "className"
+                                         if self.classify_key(f, t.slice) == "className" else "unknown", True)
+                            if isinstance(v, ast.Attribute) and v.attr == "modules" and isinstance(v.value, ast.Name) \
+                                    and v.value.id == "sys":
+                                self.add(f.file, "sys.modules", f.qual, "dict", "unknown", True)
+                if isinstance(n, ast.Call) and isinstance(n.func, ast.Name) and n.func.id == "setattr" and n.args:
+                    a0 = n.args[0]
+                    if isinstance(a0, ast.Subscript) and isinstance(a0.value, ast.Attribute) and a0.value.attr == "modules":
+                        self.add(f.file, "sys.modules[...]", f.qual, "dict", "unknown", True)
 
     def class_param_writes(self, g):
         """attributes that `g` writes onto a class it receives as a parameter"""
